@@ -1,5 +1,9 @@
 pub mod c01;
+pub mod c02;
+pub mod c05;
+pub mod c08;
 pub mod c06;
+pub mod c07;
 pub mod c13;
 pub mod c14;
 pub mod selftest;
@@ -10,7 +14,11 @@ pub fn dispatch(ctx: &mut Ctx) -> bool {
     match ctx.prop.as_str() {
         "selftest" => selftest::run(ctx),
         "C01" => c01::run(ctx),
+        "C02" => c02::run(ctx),
+        "C05" => c05::run(ctx),
+        "C08" => c08::run(ctx),
         "C06" => c06::run(ctx),
+        "C07" => c07::run(ctx),
         "C13" => c13::run(ctx),
         "C14" => c14::run(ctx),
         _ => return false,
